@@ -50,7 +50,9 @@ Inductive sevent :=
 | SMark         (* a system reset matching the resource reached the gateway; its task has not been processed yet *)
 | SNop.         (* a processed mark *)
 
-Inductive mtyp := MGet | MAccess | MCall | MAuth | MQuery | MOtherReq | MTokReset.
+Inductive mtyp := MGet | MAccess | MCall | MAuth | MQuery | MOtherReq | MTokReset
+                | MRefetch.   (* a get request sent by a reset: inside the task that started the reset of that resource, or by a
+                                 task released from the reset throttle (the other get requests load a resource for a subscriber) *)
 
 Inductive mout :=
 | OGet (d : rdata)                 (* get result (RErr never used here) *)
